@@ -15,8 +15,8 @@ Local Open Scope Z_scope.
 (* ---------------------------------------------------------------- _jbl_ptr_pool *)
 Inductive pres : Type :=
 | PErr                                (* JBL_ERROR_JSON_POINTER *)
-| PUndef                              (* '~' not followed by '0'/'1': an uninitialised byte is left in the segment,
-                                         the next character is skipped even when it is the terminator *)
+| PUndef                              (* no longer produced: '~' not followed by '0'/'1' used to leave an uninitialised byte
+                                         in the segment; the code now answers JBL_ERROR_JSON_POINTER (PErr) *)
 | POk (segs : list (list Z)).
 
 (* the inner loop: copies one segment, p is just after a '/'; returns the segment and the rest, which starts at the
@@ -66,7 +66,7 @@ Definition ptr_parse3 (path : list Z) : pres :=
     if negb (c =? 47) then PErr
     else if (zlen p >? 1) && (last p 0 =? 47) then PErr
     else match segs_scan (count_slash p) p with
-         | None => PUndef
+         | None => PErr          (* '~' must be followed by '0' or '1' (RFC 6901): JBL_ERROR_JSON_POINTER *)
          | Some ss => POk ss
          end
   end.
